@@ -548,9 +548,13 @@ ssize_t comp_read(zckCtx *zck, char *dst, size_t dst_size, bool use_dict) {
         rb = read_data(zck, src, rs);
         if(rb < 0)
             goto read_error;
-        if(rb < rs) {
-            zck_log(ZCK_LOG_DDEBUG, "EOF");
-            finished_rd = true;
+        if(rb == 0) {
+            /* rs is never zero here, so the file ends in the middle of a
+             * chunk the index says is there: that's not the end of the data,
+             * it's a truncated file */
+            set_fatal_error(zck, "Unexpected end of file in chunk %llu",
+                            (long long unsigned) zck->comp.data_idx->number);
+            goto read_error;
         }
         if(zck->check_chunk_hash.ctx == NULL)
             if(!hash_init(zck, &(zck->check_chunk_hash),
